@@ -48,10 +48,13 @@ Proof.
 Qed.
 
 (* ---- replicator.HandleTask ------------------------------------------------ *)
+Lemma rep_stored_true a : rep_stored a = true -> a = RStored.
+Proof. destruct a; simpl; intros H; try discriminate H; reflexivity. Qed.
+
 Lemma ht_loop_spec e : forall nodes q sends succ,
   ht_loop e q nodes = (sends, succ) ->
   length succ <= q /\ incl succ sends /\ incl sends nodes
-  /\ (forall n, In n succ -> e_rep e n = true /\ n <> e_local e)
+  /\ (forall n, In n succ -> e_rep e n = RStored /\ n <> e_local e)
   /\ (NoDup nodes -> NoDup succ).
 Proof.
   induction nodes as [|n r IH]; simpl; intros q sends succ H.
@@ -65,8 +68,9 @@ Proof.
     split; [exact H1|]. split; [exact H2|]. split; [intros x Hx; right; auto|].
     split; [exact H4|]. intros Hnd. inversion Hnd; auto. }
   apply Nat.eqb_neq in El.
-  destruct (e_rep e n) eqn:Er.
-  - destruct (ht_loop e q' r) as [s k] eqn:Hr. inversion H; subst.
+  destruct (rep_stored (e_rep e n)) eqn:Er; [|destruct (rep_sent (e_rep e n)) eqn:Es].
+  - apply rep_stored_true in Er.
+    destruct (ht_loop e q' r) as [s k] eqn:Hr. inversion H; subst.
     apply IH in Hr. destruct Hr as (H1 & H2 & H3 & H4 & H5).
     split; [simpl; lia|].
     split; [intros x [Hx|Hx]; [left; auto|right; auto]|].
@@ -82,12 +86,15 @@ Proof.
     split; [intros x [Hx|Hx]; [left; auto|right; auto]|].
     split; [exact H4|].
     intros Hnd. inversion Hnd; auto.
+  - apply IH in H. destruct H as (H1 & H2 & H3 & H4 & H5).
+    split; [exact H1|]. split; [exact H2|]. split; [intros x Hx; right; auto|].
+    split; [exact H4|]. intros Hnd. inversion Hnd; auto.
 Qed.
 
 Lemma handle_task_spec e q nodes sends succ :
   handle_task e q nodes = (sends, succ) ->
   length succ <= q /\ incl succ sends /\ incl sends nodes
-  /\ (forall n, In n succ -> e_rep e n = true /\ n <> e_local e)
+  /\ (forall n, In n succ -> e_rep e n = RStored /\ n <> e_local e)
   /\ (NoDup nodes -> NoDup succ).
 Proof.
   unfold handle_task. destruct (e_readable e).
@@ -252,7 +259,7 @@ Qed.
 
 (* confirmed holder w.r.t. the recorded HEAD calls and reported replications *)
 Definition conf (heads succ : list node) (n : node) : Prop :=
-  (In n heads /\ e_head e n = Has) \/ (In n succ /\ e_rep e n = true).
+  (In n heads /\ e_head e n = Has) \/ (In n succ /\ e_rep e n = RStored).
 
 Definition cache_ok (heads succ : list node) (c : cache) : Prop :=
   forall n, lookup n c = Some true -> conf heads succ n.
@@ -325,7 +332,7 @@ Lemma process_nodes_shape ty p nodes shortage :
           (p_tasks (process_nodes true e ty p nodes shortage))
           (p_sends (process_nodes true e ty p nodes shortage))
           (p_succ p ++ succ)
-    /\ (forall n, In n succ -> e_rep e n = true)
+    /\ (forall n, In n succ -> e_rep e n = RStored)
     /\ (need = false -> l_need s = false /\ (0 < l_short s \/ l_unchk s = 0))
     /\ (l_need s = true -> need = true).
 Proof.
@@ -534,7 +541,7 @@ End Fixed.
 (* confirmed holder: the header was actually read from the node during this check,
    or a replication to it was reported and the node accepted it *)
 Definition confirmed (e : env) (r : result) (n : node) : Prop :=
-  (In n (r_heads r) /\ e_head e n = Has) \/ (In n (r_succ r) /\ e_rep e n = true).
+  (In n (r_heads r) /\ e_head e n = Has) \/ (In n (r_succ r) /\ e_rep e n = RStored).
 
 (* the object is checked against the REP rules (not as an EC part) *)
 Definition rep_path (ec : option (nat * nat)) (ecr : list (nat * nat)) : Prop :=
@@ -770,7 +777,7 @@ Qed.
 Definition refute_env : env :=
   mkEnv 3 true (fun _ => false)
         (fun n => match n with 1 => NotFound | 2 => Maint | _ => Err end)
-        (fun _ => false) true.
+        (fun _ => RFail) true.
 
 Theorem unrepaired_refuted :
   let r := process_object false refute_env Regular None 1 (NetOk [[1; 2; 3]] [1] []) in
